@@ -486,7 +486,7 @@ Lemma mov_spec w L xs T l1 l2 :
 Proof.
   intros SL ST Hxs D. unfold s_mov. set (pos := last l1 T).
   rewrite (Slist_next_head w L xs SL).
-  destruct xs as [|x0 xs']; [congruence|]. set (xs := x0 :: xs') in *. cbn [hd].
+  destruct xs as [|x0 xs']; [congruence|]. cbn [hd]. set (xs := x0 :: xs') in *.
   pose proof (sl_nodup _ _ _ SL) as NDL. pose proof (sl_nonnull _ _ _ SL) as NZL.
   pose proof (sl_nodup _ _ _ ST) as NDT. pose proof (sl_nonnull _ _ _ ST) as NZT.
   assert (Hx0 : x0 <> 0) by (intros E; apply NZL; right; left; exact E).
@@ -578,7 +578,7 @@ Proof.
            apply (NoDup_app_disj (T :: l1) (b :: l2) pos NDT); [exact Hpos_in|rewrite <- E; apply in_last_cons].
         -- intros E. apply (D z); [right; exact Hzin|]. right. apply in_or_app. right. rewrite <- E. apply in_last_cons.
     + rewrite T3, T2, T1. destruct l2 as [|b l2]; cbn [hd].
-      * rewrite app_nil_r, Hp, app_assoc, last_last. reflexivity.
+      * rewrite !app_nil_r, Hp, app_assoc, last_last. reflexivity.
       * assert (b <> 0) by (intros ->; apply NZT; right; apply in_or_app; right; left; reflexivity).
         replace (N.eqb b 0) with false by (symmetry; apply N.eqb_neq; assumption).
         rewrite app_assoc, !last_app_cons. reflexivity.
